@@ -57,6 +57,7 @@ def g5_module_pairs(pkg: Package, res: Resolver, col: Collector, only: Optional[
     """Every @functional_wrapper function is called by its Module method with every formal
     bound to the method's same-named formal or self.<formal>."""
     pairs = 0
+    _proxy_dispatch(pkg, col, clause)
     for f, target in wrappers(pkg):
         if only is not None and f.name not in only:
             continue
@@ -470,3 +471,21 @@ def g5_super_init(pkg: Package, res: Resolver, funcs, col: Collector, clause: st
                        nontrivial=False)
     col.count("g5_super_init_sites", n)
     return n
+
+
+def _proxy_dispatch(pkg: Package, col: Collector, clause: str):
+    """Every Module wrapper gets `__call__ = proxy(forward)`. The proxy must reach torch.nn.Module.__call__ for *any*
+    instance; `super(self.__class__, self)` names the instance's own class, so for an instance of a subclass it resolves
+    to the wrapper class again - whose `__call__` is the same proxy - and recurses without end."""
+    mi = pkg.modules.get("_wrappers")
+    if mi is None:
+        return
+    px = [n for n in ast.walk(mi.tree) if isinstance(n, ast.FunctionDef) and n.name == "proxy"]
+    if len(px) != 1:
+        raise AnalysisError("_wrappers.proxy not found")
+    bad = [c for c in ast.walk(px[0]) if isinstance(c, ast.Call) and isinstance(c.func, ast.Name) and c.func.id == "super" and c.args
+           and any(isinstance(x, ast.Attribute) and x.attr == "__class__" for x in ast.walk(c.args[0]))]
+    col.ob("G5", clause, f"{mi.relname}::proxy::dispatch-is-subclass-safe", not bad,
+           f"`{ast.unparse(bad[0]) if bad else ''}` in proxy(): for an instance of a subclass of any wrapper Module this is the wrapper "
+           f"class itself, whose __call__ is the proxy again: calling the subclass instance raises RecursionError", mi.relname,
+           bad[0].lineno if bad else px[0].lineno, nontrivial=False)
